@@ -25,6 +25,17 @@ pub fn scenario(seed: u64, idx: u64) -> Scenario {
     for (k, n) in in_names.iter().enumerate() {
         entries.push(Entry { path: format!("{}/{}", root, n), kind: EntryKind::File(Content::Gen { marker: format!("MARK-{:08x}-{}-\n", nonce, k), len: 120, seed: k as u64, binary: false }) });
     }
+    // directories with conventional names inside the root (a feature keyed on such a prefix must not
+    // become a way out either)
+    const CONVENTIONAL: &[&str] = &[".well-known/acme-challenge", ".well-known", "static", "assets/img", "files", "uploads", "download", "api/v1", "cgi-bin", "public", "~user", "media", "tmp", "cache", "private"];
+    let mut conventional: Vec<&str> = vec![];
+    for _ in 0..rng.range(0, 3) {
+        let d = *rng.pick(CONVENTIONAL);
+        if !conventional.contains(&d) {
+            conventional.push(d);
+            entries.push(Entry { path: format!("{}/{}/token-{}", root, d, conventional.len()), kind: EntryKind::File(Content::Gen { marker: format!("MARK-{:08x}-c{}-\n", nonce, conventional.len()), len: 60, seed: 77, binary: false }) });
+        }
+    }
     // secrets for each lookup form at every ancestor level and in sibling directories
     let mut secret_names: Vec<String> = vec![];
     for (j, lvl) in levels.iter().enumerate() {
@@ -103,6 +114,15 @@ pub fn scenario(seed: u64, idx: u64) -> Scenario {
                 let tail = if rng.chance(1, 2) { rng.pick(&secret_names).clone() } else { "a.txt".to_string() };
                 let body: String = std::iter::repeat(sep).take((n * 1).min(9000 / sep.len())).collect();
                 format!("{}{}{}", body, "../".repeat(rng.range(1, depth)), tail)
+            }
+            9 if !conventional.is_empty() => {
+                // through a conventional directory and up again, further than it is deep
+                let d = *rng.pick(&conventional);
+                let d_depth = d.matches('/').count() + 1;
+                let ups = "../".repeat(d_depth + rng.range(1, depth + 1));
+                let tail = if rng.chance(3, 4) { rng.pick(&secret_names).clone() } else { "a.txt".to_string() };
+                let tail = if rng.chance(1, 4) { tail.trim_end_matches(".html").to_string() } else { tail };
+                format!("/{}/{}{}", d, ups, tail)
             }
             12 => rng.pick(&["//etc/passwd", "///etc/passwd", "/.//etc/passwd", "//etc//passwd", "/d//etc/passwd", "/%2fetc/passwd", "/etc/passwd", "/d/up.txt", "/d/e/upup.txt", "/d/e/side.html", "/d/e/side"]).to_string(),
             13 => rng.pick(&["/d/up.txt", "/d/e/upup.txt", "/d/e/side.html", "/out.txt", "/lnk/back.txt", "/lnk/back.html", "/lnk/back", "/lnk/deep.txt", "/lnk/", "/lnk"]).to_string(),
